@@ -26,7 +26,7 @@ ASSUMPTIONS = [
 ]
 BUDGET = {
     "quick": {"examples": 350, "workers": 8, "time_cap": 70},
-    "thorough": {"examples": 12000, "workers": 14, "time_cap": 1500},
+    "thorough": {"examples": 12000, "workers": 14, "time_cap": 900},
 }
 COMMANDS = ["recheck", "check", "info", "magnet", "m", "lib-checker", "lib-info", "lib-magnet", "create", "new", "create", "rename", "rename"]
 
